@@ -76,6 +76,15 @@ def configs(prop, tier, rng):
         cx = ej.fixed_small(3)[0]
         out.append(("n3.xor.eval", cx, 3, 0, [1], 0))
         out.append(("n3.xor.garbler", cx, 3, 1, [1], 0))
+    if prop == "C03" or not q:
+        # parties with TWO input bits each (a check that looks at the first wire of a party only), an output that is the
+        # result of a NOT gate and is listed twice, the first output not the interesting one
+        I = ej.inst
+        c2b = {"input_regs": [2, 2], "insts": [I("I", 0, 0, 0), I("I", 1, 0, 1), I("I", 0, 1, 2), I("I", 1, 1, 3), I("A", 0, 1, 4),
+                                               I("X", 2, 3, 5), I("N", 5, 0, 5), I("A", 4, 5, 6)],
+               "max_reg": 7, "output_regs": [4, 5, 6, 5], "and_ops": 2}
+        out.append(("n2.twobits.garbler", c2b, 2, 0, [0, 1], 1))
+        out.append(("n2.twobits.evaluator", c2b, 2, 1, [0, 1], 1))
     if not q:
         # thorough: every (evaluator, corrupted party) pair
         out.append(("n2.pe1c0", c2, 2, 1, [0, 1], 0))
